@@ -2,6 +2,7 @@ package io
 
 import (
 	"errors"
+	"time"
 )
 
 // ---------------------------------------------------------------------------
@@ -24,11 +25,15 @@ type vhObs struct {
 	closed bool
 	failAt int // index of the operation that panics with errVhStream (-1: never)
 	ops    int
+	trace  bool // protocol mode: every operation is a visible event
 }
 
 func (o *vhObs) step() {
 	k := o.ops
 	o.ops++
+	if o.trace {
+		vhEvent("io", k, 0)
+	}
 	if o.closed {
 		panic(errors.New("Stream closed"))
 	}
@@ -91,11 +96,19 @@ type vhIbs struct {
 	closed bool
 	failAt int
 	ops    int
+	trace  bool
+	slowAt int // native schedule forcing: the operation with this index (1-based position on the tape) sleeps
 }
 
 func (s *vhIbs) next(kind int, c uint) vhEvt {
 	k := s.ops
 	s.ops++
+	if s.slowAt > 0 && s.pos == s.slowAt {
+		time.Sleep(300 * time.Millisecond)
+	}
+	if s.trace {
+		vhEvent("io", k, 0)
+	}
 	if s.closed {
 		panic(errors.New("Stream closed"))
 	}
